@@ -244,6 +244,42 @@ def mutable_ids(obj, skip_templates=True):
     return seen
 
 
+def selfcheck(o, path="", depth=0):
+    """redundant public views of one aggregator agree with each other: the positional accessors i0..i9 of a Branch are its
+    members, keyed access of Label/UntypedLabel/Index returns the listed members, `children` lists the sub-aggregators"""
+    import histogrammar as _hg
+
+    if depth > 12:
+        return None
+    t = getattr(o, "name", None)
+    try:
+        if t == "Branch":
+            for i, v in enumerate(o.values[:10]):
+                if getattr(o, "i%d" % i, None) is not v:
+                    return "%s/Branch: accessor i%d is not values[%d] (entries %r vs %r)" % (path, i, i, getattr(getattr(o, "i%d" % i, None), "entries", None), v.entries)
+        elif t in ("Label", "UntypedLabel"):
+            for k in o.keys:
+                if o(k) is not o.pairs[k]:
+                    return "%s/%s: keyed access %r does not return the member" % (path, t, k)
+        elif t == "Index":
+            for i, v in enumerate(o.values):
+                if o(i) is not v:
+                    return "%s/Index: positional access %d does not return the member" % (path, i)
+        elif t == "Fraction":
+            if o.numerator not in o.children or o.denominator not in o.children:
+                return "%s/Fraction: children does not list numerator/denominator" % path
+    except Exception as e:  # noqa: BLE001
+        return "%s/%s: accessor raised %s: %s" % (path, t, type(e).__name__, e)
+    tmpl = o.__dict__.get("value") if isinstance(o, (_hg.SparselyBin, _hg.Categorize, _hg.CentrallyBin)) else None
+    for i, c in enumerate(getattr(o, "children", []) or []):
+        if c is None or c is tmpl:
+            continue
+        m = selfcheck(c, "%s/%s[%d]" % (path, t, i), depth + 1)
+        if m:
+            return m
+    return None
+
+
 def classify(e):
     if isinstance(e, Boom):
         return "raise:user"
@@ -268,6 +304,14 @@ class PyExec:
         return canon_doc(self.pool[h].toJson())
 
     def apply(self, op):
+        r = self._apply(op)
+        if r == "ok" and op[0] in ("new", "add", "mul", "rmul", "zero", "copy", "load", "pickle", "iadd") and op[1] in self.pool:
+            msg = selfcheck(self.pool[op[1]])
+            if msg:
+                return "violation: after %s: %s" % (op[0], msg)
+        return r
+
+    def _apply(self, op):
         k = op[0]
         P = self.pool
         if k == "new":
